@@ -907,6 +907,19 @@ def run(ctx):
         rows += r
         metas[t["idx"]] = m
     if failed:
+        # a case that failed INSIDE the code under test (innermost frame of the recorded traceback in the aldy sources) is a
+        # violation (the run or its replay raised), not a case the harness could not build
+        src = os.path.realpath(os.environ.get("ALDY_SRC", "/repo"))
+        still = []
+        for f in failed:
+            frames = [ln.strip() for ln in (f.get("tb") or "").splitlines() if ln.strip().startswith('File "')]
+            if frames and frames[-1].startswith(f'File "{src}/aldy/') and "/aldy/tests/" not in frames[-1]:
+                ctx.violation("CodeUnderTestRaised", {"kind": f.get("kind"), "clause": "CodeUnderTestRaised", "error": str(f["failed"]).split(":")[0]},
+                              {"case": {k: f[k] for k in ("idx", "kind", "failed")}, "traceback": f.get("tb")}, f"case {f['idx']} ({f['kind']}): {f['failed']}")
+            else:
+                still.append(f)
+        failed = still
+    if failed:
         if len(failed) > max(2, len(tasks) // 10):
             raise MachineryError(f"{len(failed)} of {len(tasks)} cases could not be built/run: {failed[0]}")
         ctx.parts["cases_not_built"] = [{k: f[k] for k in ("idx", "kind", "failed")} for f in failed]
